@@ -9,6 +9,8 @@ import DarsiaModel.Grid
 import DarsiaGen.GridTables
 import DarsiaProofs.Grid
 import DarsiaProofs.FV
+import DarsiaModel.GridFromImage
+import Mathlib.Tactic.FieldSimp
 namespace Darsia.C07
 open Darsia
 
@@ -298,6 +300,45 @@ theorem grid_guard_ok (shape : List Nat) (h : List Rat) :
       exact absurd (by simpa using e) (hz n hn)
   · rw [if_neg h4]
     refine ⟨fun _ => ⟨by omega, by omega, by omega, fun n hn e => h4 (List.any_eq_true.2 ⟨n, hn, by simp [e]⟩)⟩, fun _ => rfl⟩
+
+theorem voxelSize_cons (D : Rat) (Ds : List Rat) (n : Nat) (ns : List Nat) (k : Nat) :
+    (List.range (k + 1)).map (fun p => listGetD (D :: Ds) p 0 / ((listGetD (n :: ns) p 0 : Nat) : Rat)) =
+      (D / (n : Rat)) :: (List.range k).map (fun p => listGetD Ds p 0 / ((listGetD ns p 0 : Nat) : Rat)) := by
+  rw [List.range_succ_eq_map]
+  simp [listGetD, List.map_map, Function.comp_def]
+
+theorem vol_times_cells : ∀ (dims : List Rat) (shape : List Nat), dims.length = shape.length → (∀ n ∈ shape, 0 < n) →
+    prodR ((List.range shape.length).map fun p => listGetD dims p 0 / ((listGetD shape p 0 : Nat) : Rat)) *
+      ((prodL shape : Nat) : Rat) = prodR dims
+  | [], [], _, _ => by simp [prodR, prodL]
+  | [], _ :: _, h, _ => by simp at h
+  | _ :: _, [], h, _ => by simp at h
+  | D :: Ds, n :: ns, h, hp => by
+    have ih := vol_times_cells Ds ns (by simpa using h) (fun m hm => hp m (by simp [hm]))
+    have hn : ((n : Nat) : Rat) ≠ 0 := by
+      have := hp n (by simp); exact_mod_cast this.ne'
+    rw [List.length_cons, voxelSize_cons]
+    simp only [prodR, prodL]
+    push_cast
+    rw [← ih]
+    field_simp
+
+/-- **`generate_grid`**: for a well-formed image geometry (`CS.ok`: one positive extent and one positive length per axis,
+1–3 axes) the derived grid is accepted by the constructor guard, has the image's voxel shape, and its voxel volume times its
+number of cells is the physical volume of the image, `Π dimensions`. -/
+theorem generate_grid_volume (cs : CS) (hok : cs.ok) :
+    gridGuard (generateGrid cs).1 (generateGrid cs).2 = .ok () ∧ (generateGrid cs).1 = cs.shape ∧
+    vol (generateGrid cs).2 * ((numCells (generateGrid cs).1 : Nat) : Rat) = prodR cs.dims := by
+  have hlen : cs.voxelSize.length = cs.shape.length := by simp [CS.voxelSize, hok.shapeLen]
+  have hd : 1 ≤ cs.dim.toNat ∧ cs.dim.toNat ≤ 3 := by cases cs.dim <;> simp [Dim.toNat]
+  refine ⟨?_, rfl, ?_⟩
+  · rw [grid_guard_ok]
+    have e : (generateGrid cs).1.length = cs.dim.toNat := hok.shapeLen
+    refine ⟨hlen, by rw [e]; exact hd.1, by rw [e]; exact hd.2, fun n hn => ?_⟩
+    have := hok.shapePos n hn; omega
+  · simp only [generateGrid, vol, numCells, CS.voxelSize, CS.h]
+    rw [← hok.shapeLen]
+    exact vol_times_cells cs.dims cs.shape (by rw [hok.dimsLen, hok.shapeLen]) hok.shapePos
 
 /-- The corner indices recorded for a face (tables re-tabulated from the running code) denote reference-cell corners
 that lie on that face: in the lower neighbour (side 0) the face is the side `x_a = 1`, in the upper neighbour (side 1)
